@@ -196,9 +196,14 @@ impl FileSystem for OverlayFS {
         {
             return Ok(false);
         }
-        self.read_path(path)
-            .map(|path| path.exists())
-            .unwrap_or(Ok(false))
+        match self.read_path(path) {
+            Ok(path) => path.exists(),
+            // only "not found" means absent; any other failure of a layer must not be reported as absence
+            Err(err) => match err.kind() {
+                VfsErrorKind::FileNotFound => Ok(false),
+                _ => Err(err),
+            },
+        }
     }
 
     fn remove_file(&self, path: &str) -> VfsResult<()> {
